@@ -433,6 +433,12 @@ lzma_index_prealloc(lzma_index *i, lzma_vli records)
 	if (records > PREALLOC_MAX)
 		records = PREALLOC_MAX;
 
+	// Zero Records means that there is nothing to preallocate. Keep the
+	// default so that a later lzma_index_append() won't allocate a Record
+	// group that has no space for even one Record.
+	if (records == 0)
+		return;
+
 	i->prealloc = (size_t)(records);
 	return;
 }
